@@ -412,9 +412,9 @@ CONSTANTS Cfgs,      \* set of configuration records
           Prefixes   \* set of script tuples every explored program must start with ({} = no restriction)
 
 StepChoices(c, n) ==
-    { [th |-> th, k |-> k, key |-> key, hi |-> 0, val |-> 100 * c + n] :
+    { [th |-> th, k |-> k, key |-> key, hi |-> 0, val |-> IF k = "put" THEN 100 * c + n ELSE 0] :
          th \in Thinks[c], k \in Kinds[c] \ {"scan"}, key \in 1..NK }
-    \cup (IF "scan" \in Kinds[c]
+    \cup (IF "scan" \in Kinds[c] /\ m.cfg.engine # "kv"
           THEN { [th |-> th, k |-> "scan", key |-> 1, hi |-> NK + 1, val |-> 0] : th \in Thinks[c] }
                \cup { [th |-> th, k |-> "scan", key |-> 2, hi |-> NK + 1, val |-> 0] : th \in Thinks[c] }
           ELSE {})
